@@ -24,7 +24,7 @@ def check(tier, seed, only=None):
         # every byte of the padding is written by hash_pad itself (stale partial-buffer bytes are never hashed)
         ("hash_pad", "leaf", "all", "all"),
         ("submit", "proto", "reference_loose", "per_param"),
-        ("submit", "tape", "reference_loose", "per_param"),
+        ("submit", "tape", "reference_loose", "reference"),
     ], only)
     rep.default_replays()
     rep.assumptions.append("RESTRICTED TO C: entry values of registers, flags and dead stack of the NASM routines are out of reach")
